@@ -231,7 +231,7 @@ pub fn atom(kind: &str, k: usize, n: u64) -> Atom {
             searches: vec![n],
         },
         "multinom" => {
-            // multinom([n + 5, n]) = C(2n + 5, n); steps = sum of all terms but the largest = n
+            // multinom([n + 5, n]) = C(2n + 5, n); steps = one per collected term + sum of all terms but the largest = 2 + n
             let mut c: u128 = 1;
             for i in 0..n as u128 {
                 c = c * (2 * n as u128 + 5 - i) / (i + 1);
@@ -245,11 +245,11 @@ pub fn atom(kind: &str, k: usize, n: u64) -> Atom {
                 calls: 0,
                 height: 0,
                 tail: 0,
-                searches: vec![n],
+                searches: vec![n + 2],
             }
         }
         "multinom3" => {
-            // multinom([n + 3, n, n]) = C(2n + 3, n) * C(3n + 3, n); steps = sum - max = 2n (one budget per call)
+            // multinom([n + 3, n, n]) = C(2n + 3, n) * C(3n + 3, n); steps = 3 collected terms + sum - max = 3 + 2n (one budget per call)
             let v = binom_mod(2 * n as u128 + 3, n as u128) * binom_mod(3 * n as u128 + 3, n as u128) % PRIME;
             Atom {
                 kind: "multinom3",
@@ -260,7 +260,7 @@ pub fn atom(kind: &str, k: usize, n: u64) -> Atom {
                 calls: 0,
                 height: 0,
                 tail: 0,
-                searches: vec![2 * n],
+                searches: vec![2 * n + 3],
             }
         }
         "loop_optopt" => Atom {
